@@ -74,7 +74,7 @@ def run(ctx: core.Ctx) -> None:
     q, rng = ctx.quick, ctx.rng
     inp = []
     for t in reactlib.textbook():
-        for how, s in chem.rewrites(t["rsmi"], rng, 2 if q else 8):
+        for how, s in chem.rewrites(t["rsmi"], rng, 4 if q else 12):
             if how != "reverse":
                 inp += inputs_for(s, rng, "textbook:" + how, True)
     core.run_stage(ctx, S("textbook-own-templates", inp))
